@@ -384,6 +384,41 @@ theorem LL.any {it : Val} {f : Nat} : ∀ {bs : List Bool} {σ : St}, LL it f (b
       obtain ⟨σ', ih⟩ := LL.any t
       exact ⟨σ', by rw [e]; simp only [boolGo, bind_def, hp]; simpa using ih⟩
 
+theorem eval_tfilter (f : Nat) (env : Env) (e : Expr) (t : Ty) : eval (f + 1) env (.tfilter e t) =
+    (do let it ← eval f env e
+        let id ← freshId
+        pure (.fn id [] (.tup [.bool, t]) (typeFilterBody t) [("iterator", it), ("default", (ofType t).getD .unit)] none)) := by
+  first | (simp only [eval]; done) | (simp only [eval]; rfl)
+
+/-- **`e~ ? T $]` evaluates to the elements of `e` whose run-time type is below `T`** - the whole expression -/
+theorem iter_tfilter_collect_expr (f : Nat) (env : Env) (e : Expr) (t : Ty) (σ σ1 : St) (ty : Ty) (es : List Val)
+    (he : eval f env e σ = (.ok (.arr ty es), σ1)) (hn : (es.length : Int) < 2 ^ 63) :
+    ∃ F σ', eval F env (.post .collect (.tfilter (.post .iter e) t)) σ =
+      (.ok (Val.mkArray (es.filter (fun x => x.asType.sub t))), σ') := by
+  let σ2 : St := { cells := σ1.cells.push (.int (BitVec.ofInt 64 (-1))), nextId := σ1.nextId + 1 }
+  let σ3 : St := { σ2 with nextId := σ2.nextId + 1 }
+  have hcell : σ3.cells[σ1.cells.size]? = some (.int (BitVec.ofInt 64 (-1))) := by simp [σ3, σ2]
+  obtain ⟨F0, σ', hcol⟩ := pipeline_collect σ1.nextId σ1.cells.size ty ty es ((ofType ty).getD .unit) 0
+    [Stage.tfilter σ2.nextId t ((ofType t).getD .unit)] hn (by intro s hs; simp at hs; subst hs; trivial) σ3 hcell
+  simp only [List.foldl_cons, List.foldl_nil, Stage.apply, Stage.spec] at hcol
+  let K := f + F0 + 3
+  have he' := eval_lift (K - 3) he (by omega)
+  have hi : eval (K - 2) env (.post .iter e) σ = (.ok (arrIter σ1.nextId σ1.cells.size ty ty es ((ofType ty).getD .unit)), σ2) := by
+    have e1 : K - 2 = (K - 3) + 1 := by omega
+    rw [e1]; exact eval_iter (K - 3) env e σ σ1 ty es he'
+  have hm : eval (K - 1) env (.tfilter (.post .iter e) t) σ =
+      (.ok (typeFiltered σ2.nextId t (arrIter σ1.nextId σ1.cells.size ty ty es ((ofType ty).getD .unit)) ((ofType t).getD .unit)), σ3) := by
+    have e1 : K - 1 = (K - 2) + 1 := by omega
+    rw [e1, eval_tfilter]
+    simp only [bind_def, hi, freshId, pure_def, typeFiltered]
+    rfl
+  have hc' := lift_eq ((monoAt_le F0 (K - 1) (by omega)).collectGo _ []) hcol (by intro σ0 h0; cases h0)
+  refine ⟨K, σ', ?_⟩
+  have e1 : K = (K - 1) + 1 := by omega
+  rw [e1, eval_collect]
+  simp only [bind_def, hm, hc']
+  rfl
+
 /-! non-vacuity: the identity closure is a `PureFn`, so `[.map …]` is an admissible pipeline -/
 theorem idFn_pure : PureFn idFn (fun v => v) 5 := by
   intro k x σ hk
